@@ -4,7 +4,7 @@ import copy
 from hypothesis import strategies as st
 
 from .. import impl
-from ..gen import instances as GI, schemas as GS, walk
+from ..gen import instances as GI, schemas as GS, walk, worlds as GW
 from ..harness import Prop, Result
 
 SCHEMA_URIS = {3: "http://json-schema.org/draft-03/schema#", 4: "http://json-schema.org/draft-04/schema#",
@@ -13,6 +13,10 @@ SCHEMA_URIS = {3: "http://json-schema.org/draft-03/schema#", 4: "http://json-sch
 
 @st.composite
 def cases(draw):
+    if draw(st.integers(0, 7)) == 0:
+        w = draw(GW.worlds(ninst=4))
+        w["kind"] = "world"
+        return w
     d = draw(st.sampled_from(impl.DRAFTS))
     k = draw(st.integers(0, 9))
     if k < 5:
@@ -91,14 +95,75 @@ class C04(Prop):
             "results.  Non-trivial: schema invalid, or >= 2 top-level errors, or an error with context.")
     ASSUMPTIONS = ["which error best_match picks is not asserted beyond 'context-free descendant' and agreement with "
                    "the harness's own best_match call (documented heuristic)"]
-    GATES = {"schema-invalid": 200, "invalid+context": 200, "multi-error": 300, "class-from-$schema": 300,
+    GATES = {"world": 300, "schema-invalid": 200, "invalid+context": 200, "multi-error": 300, "class-from-$schema": 300,
              "with-checker": 300}
     MIN_NONTRIVIAL = 300
 
     def strategy(self, tier):
         return cases()
 
+    def check_world(self, case):
+        """Schemas with references and ids: the same relations on ONE validator object used for every instance in
+        turn (an entry point that abandons its iterator must not change what the next call sees)."""
+        res = Result()
+        res.evals = 0
+        ok, why = GW.wellformed(case)
+        if not ok:
+            res.excluded = why
+            return res
+        kf = GW.known_finding_class(case)
+        if kf:
+            res.excluded = kf
+            return res
+        res.labels.append("world")
+
+        def outcome(f):
+            try:
+                return ("ok", f())
+            except impl.exceptions.ValidationError as e:
+                return ("ValidationError", full_key(e))
+            except impl.exceptions.RefResolutionError:
+                return ("RefResolutionError",)
+        try:
+            v = GW.build_validator(case)
+        except Exception:
+            res.excluded = "cannot-build"
+            return res
+        for x in case["instances"]:
+            res.evals += 1
+            try:
+                a = outcome(lambda: v.is_valid(copy.deepcopy(x)))
+                b = outcome(lambda: [full_key(e) for e in v.iter_errors(copy.deepcopy(x))])
+                c = outcome(lambda: v.validate(copy.deepcopy(x)))
+                a2 = outcome(lambda: v.is_valid(copy.deepcopy(x)))
+                f = outcome(lambda: [full_key(e) for e in GW.build_validator(case).iter_errors(copy.deepcopy(x))])
+            except RecursionError:
+                res.excluded = "non-terminating"
+                return res
+            except Exception as e:
+                res.fail(("world", "raises", impl.tname(e)), "instance=%s: %r" % (impl.cj(x)[:150], e))
+                return res
+            detail = "instance=%s: is_valid=%r iter_errors=%r validate=%r is_valid-again=%r fresh-validator=%r" % (
+                impl.cj(x)[:150], a, str(b)[:120], str(c)[:120], a2, str(f)[:120])
+            if b != f or a != a2:
+                res.fail(("world", "repeat-differs"), detail)
+            elif b[0] == "ok":
+                if a != ("ok", not b[1]):
+                    res.fail(("world", "is_valid-vs-iter_errors"), detail)
+                if b[1] and c != ("ValidationError", b[1][0]):
+                    res.fail(("world", "validate-not-first-error"), detail)
+                if not b[1] and c != ("ok", None):
+                    res.fail(("world", "validate-raises-on-valid"), detail)
+            elif a[0] == "ok" and a[1] is True:
+                # iter_errors cannot resolve something: is_valid may stop before reaching it only by finding an error
+                res.fail(("world", "is_valid-true-but-iter_errors-unresolvable"), detail)
+            if b[0] == "ok" and len(b[1]) >= 2:
+                res.nontrivial = True
+        return res
+
     def check(self, case):
+        if case.get("kind") == "world":
+            return self.check_world(case)
         res = Result()
         res.evals = 0
         d, s = case["draft"], case["schema"]
@@ -245,6 +310,8 @@ class C04(Prop):
         return res
 
     def focus(self, case, bucket):
+        if case.get("kind") == "world":
+            return
         xs = list(case["instances"])
         if case.get("probes") and isinstance(case["schema"], dict):
             xs += GI.probes(case["schema"], case["probes"])
